@@ -63,7 +63,7 @@ def oracles(rec):
     bs, be = rec.get("body_start") or [], rec.get("body_end") or []
     bs = [x or [] for x in bs] + [[]] * (n - len(bs))
     be = [x or [] for x in be] + [[]] * (n - len(be))
-    if rec.get("caller_hung"):
+    if rec.get("caller_hung") and (rec.get("hang_stable") or rec.get("reran")):
         bad("C05", "Enqueue/Wait did not return within the watchdog time (goroutines stably blocked: %s)" % rec.get("hang_stable"))
         if cfg.get("straggler", -1) >= 0:
             bad("C09", "Wait did not return after its context was done while task %d was still running" % cfg["straggler"])
@@ -236,6 +236,18 @@ def observe(seed, tier, extra_args=()):
     for pi, plan in enumerate(plans):
         rc, out, err = common.run([exe, "-seed", str(seed * 1000 + pi)] + plan + list(extra_args), timeout=6000)
         recs = [json.loads(l) for l in out.split("\n") if l.strip()]
+        # a watchdog expiry without a stable all-blocked dump is slowness (machine under load), not a
+        # hang: decide such an execution again with a much longer watchdog
+        for k, r in enumerate(recs):
+            if (r.get("caller_hung") or r.get("hang")) and not r.get("hang_stable"):
+                # (the second case: goroutines still alive 3 s after the call returned - also decided again, with 30 s)
+                rc2, out2, err2 = common.run([exe, "-seed", str(seed * 1000 + pi)] + plan + list(extra_args) +
+                                             ["-only", str(r["cfg"]["case"]), "-hang-after", "60s", "-quiesce", "30s"], timeout=600, check=False)
+                again = [json.loads(l) for l in out2.split("\n") if l.strip()]
+                summary["slow_reruns"] = summary.get("slow_reruns", 0) + 1
+                if again:
+                    recs[k] = again[0]
+                    recs[k]["reran"] = True
         lines_full, idx = [], []
         for r in recs:
             summary["executions"] += 1
@@ -258,7 +270,7 @@ def observe(seed, tier, extra_args=()):
             if r.get("hang"):
                 summary["hangs"] += 1
             if r.get("caller_hung"):
-                L = sched_lin.Lin(r, gated=gated)
+                L = sched_lin.Lin(r, gated=True)
                 ls = L.build(partial=True)
                 v = common.model_run("sched-replay", strip_ticks(ls))
                 verdict = v[0] if v else ""
@@ -270,7 +282,7 @@ def observe(seed, tier, extra_args=()):
                                  "cfg": cfg, "wait_err": [], "events": r["events"][:400]})
                 summary.setdefault("hang_model_states", []).append(verdict[:400])
                 continue
-            L = sched_lin.Lin(r, gated=gated)
+            L = sched_lin.Lin(r, gated=True)
             ls = L.build()
             if L.problems and len(summary["builder_problems"]) < 5:
                 summary["builder_problems"].append({"case": cfg["case"], "problems": L.problems})
@@ -278,7 +290,33 @@ def observe(seed, tier, extra_args=()):
             idx.append(r)
         full = common.model_run("sched-replay", [l for ls in lines_full for l in ls])
         core = common.model_run("sched-replay", [l for ls in lines_full for l in strip_ticks(ls)])
-        for r, ls, vf, vc in zip(idx, lines_full, full, core):
+        # an execution the gated model refuses may still be one of the model without the dispatch gate:
+        # then the code dispatched a job while `ongoing` had reached Concurrency (decided by behaviour,
+        # not by the spelling of the condition in the source)
+        redo = [k for k, vc in enumerate(core) if not vc.startswith("OK")]
+        if redo:
+            def ungate(ls):
+                return [re.sub(r"^(CFG \d+ \d+) 1 ", r"\1 0 ", ls[0])] + ls[1:]
+            un_core = common.model_run("sched-replay", [l for k in redo for l in strip_ticks(ungate(lines_full[k]))])
+            un_full = common.model_run("sched-replay", [l for k in redo for l in ungate(lines_full[k])])
+            for k, uc, uf in zip(redo, un_core, un_full):
+                if uc.startswith("OK"):
+                    r = idx[k]
+                    summary["overdispatch"] = summary.get("overdispatch", 0) + 1
+                    for p in ("C06", "C19"):
+                        hits = summary["oracle_hits"].setdefault(p, [])
+                        if len(hits) < 5:
+                            hits.append({"what": "the loop dispatched a job although `ongoing` had already reached Concurrency: the execution is one of the model without the dispatch gate only "
+                                                 "(gated model: %s); more results can then be outstanding than donec holds, and workers block forever after a fail-fast exit (C06_refuted_ungated); "
+                                                 "reports count more executing jobs than workers (C19_refuted_ungated)" % core[k][:120],
+                                         "all": [core[k][:400]], "case": r["cfg"]["case"], "plan": plan, "seed": seed * 1000 + pi, "cfg": r["cfg"],
+                                         "wait_err": r["wait_err"], "events": r["events"][:400]})
+                    # the theorems of the other properties hold with or without the gate: judge them on the ungated replay
+                    core[k] = uc
+                    if uf.startswith("OK"):
+                        full[k] = uf
+        redo_set = set(redo)
+        for kk, (r, ls, vf, vc) in enumerate(zip(idx, lines_full, full, core)):
             if vf.startswith("OK"):
                 summary["replay_full_ok"] += 1
                 if "final=true" in vf:
@@ -293,7 +331,7 @@ def observe(seed, tier, extra_args=()):
             elif len(summary["mismatch_core"]) < 5:
                 summary["mismatch_core"].append({"verdict": vc[:800], "case": r["cfg"]["case"], "plan": plan,
                                                  "seed": seed * 1000 + pi, "cfg": r["cfg"], "trace": strip_ticks(ls)[:600]})
-            if vf.startswith("OK") and 30 <= len(ls) <= 160 and len(summary.setdefault("coq_traces", [])) < (4 if tier == "quick" else 25):
+            if kk not in redo_set and vf.startswith("OK") and 30 <= len(ls) <= 160 and len(summary.setdefault("coq_traces", [])) < (4 if tier == "quick" else 25):
                 summary["coq_traces"].append({"script": ls, "verdict": vf})
             if len(summary["samples"]) < 2 and len(r["cfg"]["jobs"]) >= 3:
                 summary["samples"].append({"cfg": {k: r["cfg"][k] for k in ("n", "coe", "shape", "jobs")},
